@@ -27,7 +27,7 @@ import (
 //   }
 //   fn main() { println(f(P)); println(f(false)); try { throw("z"); } catch e { println(e.message); } println("done"); }
 
-var verifSlotKinds = []string{"loop", "while", "for", "block", "if", "else", "matcharm", "matchdef", "try", "catch", "call", "operand"}
+var verifSlotKinds = []string{"loop", "while", "for", "block", "if", "else", "matcharm", "matchdef", "try", "catch", "call", "operand", "call2"}
 var verifExitKinds = []string{"break", "continue", "return", "throw", "fatal"}
 
 type verifNestGen struct {
@@ -113,6 +113,17 @@ func (g *verifNestGen) body(lvl int, inLoop bool) (string, bool) {
 		inner, ok := g.body(lvl+1, inLoop)
 		v := fmt.Sprintf("v%d", lvl)
 		return decl + ind + "let " + v + " = 100 - (20 + {\n" + inner + ind + "  println(\"i" + fmt.Sprint(lvl) + "\");\n" + ind + "  3\n" + ind + "});\n" + ind + "println(\"o" + fmt.Sprint(lvl) + "\", " + v + ");\n" + after, ok
+	case "call2":
+		// two call frames between this level and the inner construct (an exception thrown inside crosses both)
+		g.nfn++
+		name := fmt.Sprintf("h%d", g.nfn)
+		inner, ok := g.body(lvl+1, false)
+		if !ok {
+			return "", false
+		}
+		g.helper += "fn " + name + "b(p: bool) -> int {\n  let q = 5;\n" + inner + "  println(\"h-end\", q);\n  return 3;\n}\n" +
+			"fn " + name + "(p: bool) -> int {\n  let w = 6;\n  let r = " + name + "b(p);\n  println(\"h-mid\", w, r);\n  return r + 1;\n}\n"
+		return decl + ind + "println(\"r\", 500 - " + name + "(p));\n" + after, true
 	case "call":
 		g.nfn++
 		name := fmt.Sprintf("h%d", g.nfn)
@@ -148,7 +159,7 @@ func (g *verifNestGen) pendingAtExit() string {
 	}
 	for i := len(g.slots) - 1; i >= 0; i-- {
 		k := verifSlotKinds[g.slots[i]]
-		if k == "call" {
+		if k == "call" || k == "call2" {
 			break
 		}
 		if (k == "loop" || k == "while" || k == "for") && ek != "return" {
